@@ -15,7 +15,8 @@ from adapters.C14 import text_of, token_of
 
 
 def _child(scen, wfd, d):
-    sys.path.insert(0, "/repo")
+    from vlib import tlc as _t
+    sys.path.insert(0, _t.REPO)
     import importlib
     import windpyutils.parallel.storage as st
     importlib.reload(st)
